@@ -42,10 +42,10 @@ _Static_assert(GS_PMAX <= G_IN_MAX, "ghost stream too small for the window: comp
 #define GS_TABMAX GS_PMAX   /* line/column tables cover offsets 0..GS_TABMAX */
 #endif
 
-int g_L[GS_LMAX + 6];
+int g_L[GS_LMAX + 30];        /* LEX_EOF-filled far past the window: the oracles look ahead without bounds tests */
 unsigned g_k[GS_LMAX + 1];
 size_t g_m;
-size_t g_off[GS_LMAX + 6];
+size_t g_off[GS_LMAX + 30];
 unsigned char g_nlcum[G_IN_MAX + 2];   /* small counts: the window has at most G_IN_MAX bytes */
 unsigned char g_colrel[G_IN_MAX + 2];  /* column of offset j counted from the last new-line (or from offset 0) */
 #define g_colof(j) ((size_t)g_colrel[j] + (g_nlcum[j] == 0 ? g_col0 : 0))
@@ -111,7 +111,7 @@ gs_build(size_t m)
 		} else
 			g_L[i] = LEX_EOF;
 	}
-	for (i = GS_LMAX + 1; i < GS_LMAX + 6; i++) {
+	for (i = GS_LMAX + 1; i < GS_LMAX + 30; i++) {
 		g_L[i] = LEX_EOF;
 		g_off[i] = w;
 	}
@@ -259,7 +259,7 @@ nextchar_abs(struct scanner *s)
 
 	if (s->usebuf)
 		bufadd(&s->buf, s->chr);
-	__CPROVER_assert(i < GS_LMAX + 6, "nextchar stand-in: read stays inside the logical window (harness bound)");
+	__CPROVER_assert(i < GS_LMAX + 30, "nextchar stand-in: read stays inside the logical window (harness bound)");
 	c = i < g_m ? g_L[i] : LEX_EOF;
 	k = i <= g_m && i <= GS_LMAX ? g_k[i] : 0;
 	g_li = i;
@@ -271,6 +271,27 @@ nextchar_abs(struct scanner *s)
 	s->chr = c;
 	s->loc.line += k + (c == '\n');
 	s->loc.col = c == '\n' ? 0 : k > 0 ? 1 : s->loc.col + 1;
+}
+
+/* ungetc at the logical level (replace_calls ghost_ungetc:ungetc_abs, for units on nextchar_abs that can reach scankind's
+   ".." pushback): the scanner's character goes back in front of the stream; the splices that preceded it stay consumed. */
+unsigned g_k0[GS_LMAX + 1];   /* g_k as laid out (g_k itself is updated by a pushback) */
+
+int
+ungetc_abs(int c, FILE *f)
+{
+	__CPROVER_assert(f == ghost_file(), "ghost stdio: ungetc on the scanner's file");
+	if (c == EOF)
+		return EOF;
+	__CPROVER_assert(g_li >= 1 && g_li <= GS_LMAX && c == g_L[g_li], "ghost stdio: ungetc pushes back the character that was read last");
+	g_in_pos = g_off[g_li];
+	if (g_li <= GS_LMAX)
+		g_k[g_li] = 0;
+	--g_li;
+	++g_unget_depth;
+	if (g_unget_depth > g_unget_max)
+		g_unget_max = g_unget_depth;
+	return (unsigned char)c;
 }
 
 /* ---------------------------------------------------------------------------------------------------------------
